@@ -222,6 +222,11 @@ impl Connection {
         self.transport.connect(stream);
         // a connection object that was connected before is still framing for distribution traffic
         self.transport.set_frame_mode(FrameMode::Handshake);
+        // and nothing the previous peer sent belongs to this connection: a new peer starts with an
+        // empty atom cache and numbers its fragmented messages from scratch
+        self.atom_cache = AtomCache::new();
+        self.fragment_assembler = FragmentAssembler::new();
+        self.fragment_counts.clear();
 
         debug!("Starting handshake sequence");
         self.send_name().await?;
